@@ -404,10 +404,10 @@ EvCompr2(node, pairs, i, le, st, acc) ==
   THEN R(Val(IF node.a[1] = "set" THEN SetV(SortVals(acc)) ELSE ListV(acc)), st)
   ELSE IF st.fuel = 0 THEN R(O("fuel", Null), st)
   ELSE
-  LET s1 == Put(Put([st EXCEPT !.fuel = @ - 1], le, node.a[3], pairs[i][1]), le, node.a[5], pairs[i][2])
+  LET s1 == Put(Put([st EXCEPT !.fuel = @ - 1], le, node.a[3], pairs[i][1]), le, node.a[6], pairs[i][2])
       v  == Ev(node.a[2], le, s1) IN
   IF ~IsVal(v) THEN v
-  ELSE LET c == IF node.a[7].n = "none" THEN R(Val(Bool(TRUE)), v.st) ELSE Ev(node.a[7], le, v.st) IN
+  ELSE LET c == IF node.a[9].n = "none" THEN R(Val(Bool(TRUE)), v.st) ELSE Ev(node.a[9], le, v.st) IN
   IF ~IsVal(c) THEN c
   ELSE IF c.o.v.k # "bool" THEN R(RErr, c.st)
   ELSE EvCompr2(node, pairs, i + 1, le, c.st, IF c.o.v.n = 0 THEN acc ELSE Append(acc, v.o.v))
@@ -513,15 +513,16 @@ Ev(node, e, st) ==
                    IF S = {} THEN R(RErr, c.st) ELSE R(Val(c.o.v.s[CHOOSE p \in S : TRUE][2]), c.st)
               ELSE R(RErr, c.st)
     [] node.n = "compr2" ->     \* two-source comprehension: s = "product" | "parallel";
-                                \* a = <<kind, value expr, id1, list1, id2, list2, cond or none>>
+                                \* a = <<kind, value expr, id1, what1, list1, id2, what2, list2, cond or none>>
          LET s1 == NewFrame(st, e)
              le == Len(s1.envs)
-             c1 == Ev(node.a[4], e, s1) IN
+             c1 == Ev(node.a[5], e, s1) IN
          IF ~IsVal(c1) THEN c1
-         ELSE LET c2 == Ev(node.a[6], e, c1.st) IN
+         ELSE LET c2 == Ev(node.a[8], e, c1.st) IN
               IF ~IsVal(c2) THEN c2
               ELSE IF ~Iterable(c1.o.v) \/ ~Iterable(c2.o.v) THEN R(RErr, c2.st)
-              ELSE LET i1 == Items(c1.o.v, "entries")  i2 == Items(c2.o.v, "entries")
+              ELSE LET W(w) == IF w = "" THEN "entries" ELSE w
+                       i1 == Items(c1.o.v, W(node.a[4]))  i2 == Items(c2.o.v, W(node.a[7]))
                        n1 == Len(i1)  n2 == Len(i2)
                        pairs == IF node.s = "product"
                                 THEN [k \in 1..(n1 * n2) |-> <<i1[((k - 1) \div n2) + 1], i2[((k - 1) % n2) + 1]>>]
